@@ -8,11 +8,12 @@ From EV Require Import Base.Bytes Gen.Tables Model.Taproot Model.Huffman Proofs.
 Import ListNotations.
 
 (* ---- the builder, fed the depth-first walk of any tree of height <= 128, ends with exactly one node: the tree's sorted-pair
-   merkle root and every leaf with its sibling path — held in REVERSE depth-first order (NodeInfo::combine(node, child), F9) *)
+   merkle root and every leaf with its sibling path, in depth-first (insertion) order — NodeInfo::combine(child, node) since
+   fix aee9a45; on the unrepaired code this clause read `rev (leaf_paths t)` (finding F9) *)
 Theorem C15_builder_sound : forall (Hleaf Hbranch : bytes -> bytes) (t : tree), (height t <= MAXD)%nat ->
   run Hleaf Hbranch (dfs t 0) [] = Ok [Some (node_of Hleaf Hbranch t)] /\
   n_hash (node_of Hleaf Hbranch t) = root Hleaf Hbranch t /\
-  n_leaves (node_of Hleaf Hbranch t) = rev (leaf_paths Hleaf Hbranch t).
+  n_leaves (node_of Hleaf Hbranch t) = leaf_paths Hleaf Hbranch t.
 Proof. intros. split; [now apply builder_sound|split; [apply node_of_hash|apply node_of_leaves]]. Qed.
 
 (* ---- output key: finalize commits to the internal key tweaked by H_TapTweak(internal || root); the script map is exactly the
@@ -91,7 +92,7 @@ Proof. intros Hleaf Hbranch Htweak scalar_ok tweak tweak_check HL HB TS TI t P i
 (* ---- completeness: the builder is left complete ONLY by the depth-first walk of a tree of height <= 128, and the walk
    determines the tree; everything else is refused with a TaprootBuilderError (by an add_* call: InvalidMerkleTreeDepth,
    NodeNotInDfsOrder, OverCompleteTree; or by finalize: IncompleteTree, EmptyTree) — never accepted, and finalize's `expect`
-   cannot fire on a state reached through the API *)
+   was unreachable through the API (and is gone since fix c723f02) *)
 Theorem C15_builder_complete : forall (Hleaf Hbranch : bytes -> bytes) (items : list item) (b : br),
   run Hleaf Hbranch items [] = Ok b -> is_complete b = true ->
   exists t, (height t <= MAXD)%nat /\ items = dfs t 0 /\ b = [Some (node_of Hleaf Hbranch t)] /\ forall t', items = dfs t' 0 -> t' = t.
@@ -105,8 +106,9 @@ Theorem C15_accepts_trees : forall (Hleaf Hbranch Htweak : bytes -> bytes) (scal
   (tweak : bytes -> bytes -> option (bytes * bool)) (t : tree) (P : bytes), (height t <= MAXD)%nat ->
   build Hleaf Hbranch Htweak scalar_ok tweak (dfs t 0) P = from_node_info Htweak scalar_ok tweak P (node_of Hleaf Hbranch t).
 Proof. exact build_accepts. Qed.
-(* F16 (C10 territory, recorded here): a state only serde can produce makes finalize panic in the model as in the code *)
-Example C15_F16_model : forall Htweak scalar_ok tweak P, finalize Htweak scalar_ok tweak [None] P = Panic BuilderInvariant.
+(* F16 (C10 territory, recorded here): a state only serde can produce used to make finalize panic; since fix c723f02 it is refused
+   as IncompleteTree, in the model as in the code *)
+Example C15_F16_repaired : forall Htweak scalar_ok tweak P, finalize Htweak scalar_ok tweak [None] P = Fail IncompleteTree.
 Proof. reflexivity. Qed.
 
 (* ---- key pair: over an abstract group (generator multiples mulG, addition, negation, x-only serialisation, even-Y lift) with the
@@ -209,7 +211,7 @@ Proof. split; [|split; [|split]].
 Check (C15_builder_sound : forall (Hleaf Hbranch : bytes -> bytes) (t : tree), (height t <= MAXD)%nat ->
   run Hleaf Hbranch (dfs t 0) [] = Ok [Some (node_of Hleaf Hbranch t)] /\
   n_hash (node_of Hleaf Hbranch t) = root Hleaf Hbranch t /\
-  n_leaves (node_of Hleaf Hbranch t) = rev (leaf_paths Hleaf Hbranch t)).
+  n_leaves (node_of Hleaf Hbranch t) = leaf_paths Hleaf Hbranch t).
 Check (C15_builder_complete : forall (Hleaf Hbranch : bytes -> bytes) (items : list item) (b : br),
   run Hleaf Hbranch items [] = Ok b -> is_complete b = true ->
   exists t, (height t <= MAXD)%nat /\ items = dfs t 0 /\ b = [Some (node_of Hleaf Hbranch t)] /\ forall t', items = dfs t' 0 -> t' = t).
